@@ -4,12 +4,25 @@
 package ssync
 
 import (
+	"fmt"
+	"runtime"
 	"sync"
 
 	"verif/sim"
 )
 
 type Locker = sync.Locker
+
+func site(kind string) string {
+	_, f, l, _ := runtime.Caller(2)
+	for i := len(f) - 1; i >= 0; i-- {
+		if f[i] == '/' {
+			f = f[i+1:]
+			break
+		}
+	}
+	return fmt.Sprintf("%s at %s:%d", kind, f, l)
+}
 
 // Mutex: uncontended lock is a flag flip after a yield; contended lock parks the task
 // through the kernel (a scheduling point the simulator sees, unlike a real mutex).
@@ -51,7 +64,9 @@ func (m *Mutex) Lock() {
 	m.waiters = append(m.waiters, t)
 	m.g.Unlock()
 	w.Probe("mutex_contended")
+	t.SetWait(site("Mutex.Lock"))
 	w.Block(t)
+	t.SetWait("")
 	// ownership was handed over by Unlock
 }
 
@@ -139,7 +154,9 @@ func (m *RWMutex) Lock() {
 	m.wq = append(m.wq, rwWaiter{t, true})
 	m.g.Unlock()
 	w.Probe("rwmutex_contended")
+	t.SetWait(site("RWMutex.Lock"))
 	w.Block(t)
+	t.SetWait("")
 }
 
 func (m *RWMutex) RLock() {
@@ -163,7 +180,9 @@ func (m *RWMutex) RLock() {
 	m.wq = append(m.wq, rwWaiter{t, false})
 	m.g.Unlock()
 	w.Probe("rwmutex_contended")
+	t.SetWait(site("RWMutex.RLock"))
 	w.Block(t)
+	t.SetWait("")
 }
 
 func (m *RWMutex) grant(w *sim.World) {
